@@ -20,6 +20,13 @@ func SetVirtual(start, stp int64) { virtual, cur, step = true, start, stp }
 //go:norace
 func SetReal() { virtual = false; AfterFn = nil }
 
+// SetAfterFn installs (or, with nil, removes) the time.After seam. Like the other accessors of the seam it is not
+// instrumented for the race detector: the harness sets it from the threads of consecutive executions, and a thread
+// abandoned by an execution that ended in a deadlock is never joined.
+//
+//go:norace
+func SetAfterFn(f func(d time.Duration) <-chan time.Time) { AfterFn = f }
+
 // Advance moves the virtual clock forward.
 //
 //go:norace
